@@ -258,4 +258,24 @@ def clientSetFromString (cdt : DType F) (t : Text) : Except Err (JVal F) :=
   | .error e => .error e
   | .ok v => clientSet cdt v
 
+/-- what `SecopClient.execCommand` (829-842) hands to `json.dumps` for the `do` request: `datatype.export_value(argument)`
+on the argument type the client rebuilt from the command's description (`if datatype:` — a datatype object is always
+true; a command without argument type is not a matter of values) -/
+def clientExecArg (cdt : DType F) (v : PVal F) : Except Err (JVal F) := exportValue cdt v
+
+/-- what `execCommand` returns for the data of the `done` reply: `datatype.import_value(data)` on the result type the
+client rebuilt -/
+def clientExecResult (cdt : DType F) (j : JVal F) : Except Err (PVal F) := importValue cdt j
+
+/-- the node's side of a command that answers the argument it was given (`Command.do` 516-548: `import_value` of the
+transported argument; `Dispatcher._execute_command` 139-155: `export_value` of the result), followed by the client's
+`clientExecResult`: what `execCommand` returns for such a command -/
+def echoCommand (dt cdt : DType F) (j : JVal F) : Except Err (PVal F) :=
+  match importValue dt j with
+  | .error e => .error e
+  | .ok a =>
+    match exportValue dt a with
+    | .error e => .error e
+    | .ok j' => clientExecResult cdt j'
+
 end Frappy.Datatypes
